@@ -6,6 +6,14 @@ from lib import gz, gtext, glist, gbool, gopt, gpair
 THEOREMS = ['C08_int_text_roundtrip', 'C08_int_out_lex', 'C08_bounded_native_exact',
             'C08_bounded_roundtrip', 'C08_integer_roundtrip', 'C08_integer_in_lex']
 
+THEOREMS_DT = ['C08_dt_offset_roundtrip', 'C08_dt_usec_six_digits', 'C08_dt_usec_exact', 'C08_dt_usec_digits',
+               'C08_dt_datetime_roundtrip', 'C08_dt_time_roundtrip', 'C08_dt_date_roundtrip',
+               'C08_dt_datetime_out_lex_partial', 'C08_dt_datetime_out_lex_iff', 'C08_dt_datetime_out_lex_refuted',
+               'C08_dt_time_out_lex', 'C08_dt_date_out_lex', 'C08_dt_datetime_in_lex', 'C08_dt_time_in_lex',
+               'C08_dt_date_in_lex', 'C08_dt_datetime_reader_shape', 'C08_dt_datetime_only_valueerror',
+               'C08_dt_datetime_crash_iff', 'C08_dt_time_only_valueerror', 'C08_dt_time_crash_iff',
+               'C08_dt_date_only_valueerror', 'C08_dt_date_crash_iff']
+
 INT_TYPES = ['Integer', 'UnsignedInteger', 'PositiveInteger', 'Integer8', 'Integer16', 'Integer32',
              'Integer64', 'UnsignedInteger8', 'UnsignedInteger16', 'UnsignedInteger32', 'UnsignedInteger64']
 
@@ -670,6 +678,7 @@ def run(check):
     check.regen(['numtypes'])
     check.check_sources()
     check.prove('Props.C08', THEOREMS)
+    check.prove('Props.C08_dt', THEOREMS_DT)
     family_int(check, tier)
     family_datetime(check, tier)
     family_duration(check, tier)
